@@ -85,6 +85,7 @@ GENERATED = [
     ("while_do_for", 'function f() { while ($i < 3) { $i++; } do { $i--; } while ($i > 0); for ($j = 0; $j < 4; $j++) { say "j"; } }'),
     ("switch_case", 'function f() { switch ($x) { case 1: say "a"; break; case 2: say "b"; say "c"; case 3: say "d"; } }'),
     ("switch_blocks", 'function f() { switch ($x) { case 1: if ($y == 1) { say "d"; } case 2: while ($w < 2) { $w++; } say "after"; case 3: say "e"; } }'),
+    ("paren_exprs", 'function f() { $s := ($a + 2) * ($b - 1); if (($x == 1) && ($y == 2 || $z == 3)) { say "p"; } }'),
     ("arrow_args", 'Timer.add(t, runOnce, @a, () => { say "done"; });\nfunction f() { Hardcode.repeat((i) => { say "i"; }, start=1, stop=3); }'),
     ("execute_run", 'function f() { execute as @a at @s run { say "x"; tp @s ~ ~1 ~; } execute if ($x matches 1..2) run say "y"; }'),
     ("varops", 'function f() { $a = 1; $a += $b; $a *= 3; $a ??= 2; $a >< $b; $a = obj:@s; obj:@s -= 4; $a = @s::Health; @s::Health = 2; $s := $a + 2 * $b; }'),
